@@ -236,6 +236,10 @@ def main(argv=None):
         print(f"CHECKER-BROKEN property={prop}: cannot import contracts or repository modules")
         traceback.print_exc()
         return 3
+    if os.environ.get("VERIF_SCRATCH_RUN"):
+        import cardillo
+
+        print(f"scratch run: cardillo imported from {os.path.dirname(cardillo.__file__)}")
     npshim.install("cardillo")
     npshim.install_sparse()
     if hasattr(mod, "setup"):
@@ -352,10 +356,12 @@ def main(argv=None):
                 broken.append((b.name, ("crash", f"{type(e).__name__}: {e}\n{traceback.format_exc()[-2000:]}")))
 
     # ---- verdicts
-    os.makedirs(os.path.join(ROOT, "replays", prop), exist_ok=True)
+    # runs against a deliberately changed tree keep their replay files apart (they may run side by side)
+    replay_root = os.path.join(".work", f"replays-scratch-{os.getpid()}") if os.environ.get("VERIF_SCRATCH_RUN") else "replays"
+    os.makedirs(os.path.join(ROOT, replay_root, prop), exist_ok=True)
     if a.only is None:
-        for old in os.listdir(os.path.join(ROOT, "replays", prop)):  # replays of earlier runs are stale
-            os.remove(os.path.join(ROOT, "replays", prop, old))
+        for old in os.listdir(os.path.join(ROOT, replay_root, prop)):  # replays of earlier runs are stale
+            os.remove(os.path.join(ROOT, replay_root, prop, old))
     by_backend = {}
     discharged = 0
     violations = []
@@ -372,7 +378,7 @@ def main(argv=None):
 
     def write_replay(name, payload):
         fn = hashlib.sha1(name.encode()).hexdigest()[:12] + ".json"
-        path = os.path.join("replays", prop, fn)
+        path = os.path.join(replay_root, prop, fn)
         with open(os.path.join(ROOT, path), "w") as fh:
             json.dump(_jsonable(payload), fh, indent=1, default=str)
         return path
